@@ -5,6 +5,7 @@ A contradiction rule over canonical HIR: the reference is never a stored copy of
 the *current* tree."""
 from hircanon import canon_fn, mirror, swap_lr, show, first_diff, fam_erase
 from rules.layer import has_user_code
+import gef as G
 
 RULE = 'TWIN'
 PROPS = ['C02']
@@ -195,17 +196,30 @@ def run(ctx):
         for t in have[1:]:
             if forms[t][key] != forms[ref_t][key]:
                 diffs.append((t, first_diff(forms[ref_t][key], forms[t][key])))
-        # majority vote to name the odd one out
+        # second opinion on the resolved program: guarded-effects forms (syntax-insensitive), then with helpers inlined
         if diffs:
+            for inl in (False, True):
+                gs = {t: G.gef(prog, cores[t][key], inline=inl) for t in have}
+                if all(gs[t] == gs[ref_t] for t in have):
+                    diffs = []
+                    f = cores[ref_t][key]
+                    ctx.add(RULE, f, 'sibling(%s)' % key[1], 'ok', 'written differently in the %s copies, but the guarded effects (targets, values, guards, order%s) are identical' % ('/'.join(fams[t] for t in have), ', helpers inlined' if inl else ''),
+                            props_of(prog, f, c09), f.line, {'copies': [fams[t] for t in have], 'level': 'gef-inline' if inl else 'gef'})
+                    break
+            if not diffs:
+                continue
+        if diffs:
+            # majority vote on the effect forms
+            gsi = {t: G.gef(prog, cores[t][key], inline=True) for t in have}
             groups = {}
             for t in have:
-                groups.setdefault(repr(forms[t][key]), []).append(t)
+                groups.setdefault(repr(gsi[t]), []).append(t)
             odd = sorted(groups.values(), key=len)[0]
             odd_t = odd[0]
             f = cores[odd_t][key]
             others = [fams[t] for t in have if t not in odd]
             ref = [t for t in have if t not in odd]
-            d = first_diff(forms[ref[0]][key], forms[odd_t][key]) if ref else diffs[0][1]
+            d = (G.first_diff(gsi[ref[0]], gsi[odd_t]) if ref else None) or diffs[0][1]
             ctx.add(RULE, f, 'sibling(%s)' % key[1], 'violation',
                     'copies disagree: %s in the %s copy differs from the %s cop%s; first difference at %s' % (key[1], fams[odd_t], '/'.join(others) or 'other', 'ies' if len(others) > 1 else 'y', d),
                     props_of(prog, f, c09), f.line, {'copies': [fams[t] for t in have], 'difference': d})
@@ -226,7 +240,9 @@ def run(ctx):
             g = fns[m]
             a = commute_eq(mirror(canon_fn(f.hir, 'num')))
             b = commute_eq(canon_fn(g.hir, 'num'))
-            if a == b:
+            if a != b and G.gef(prog, f, mirror=True) == G.gef(prog, g):
+                ctx.add(RULE, f, 'mirror-pair(%s/%s)' % (name, m), 'ok', '%s and %s are written differently, but their guarded effects are exact mirror images' % (name, m), props_of(prog, f, c09), f.line)
+            elif a == b:
                 ctx.add(RULE, f, 'mirror-pair(%s/%s)' % (name, m), 'ok', '%s is the left/right mirror image of %s' % (name, m), props_of(prog, f, c09), f.line)
             else:
                 ctx.add(RULE, f, 'mirror-pair(%s/%s)' % (name, m), 'violation', '%s and %s are no longer mirror images of each other; first difference at %s' % (name, m, first_diff(a, b)),
@@ -245,16 +261,32 @@ def run(ctx):
                 ma = commute_eq(unblock(mirror(a)))
                 bb = commute_eq(unblock(b))
                 sig = 'mirror-branch#%d(%s)' % (i, kind)
-                if ma == bb:
+                if ma != bb and G.self_symmetric(G.gef(prog, f))[1]:
+                    ctx.add(RULE, f, sig, 'ok', 'the arms are written differently, but the function\'s guarded effects are left/right symmetric', PROPS, f.line)
+                elif ma == bb:
                     ctx.add(RULE, f, sig, 'ok', 'the two arms are left/right mirror images (condition %s)' % show(c, 0, 3)[:80], PROPS, f.line)
                 else:
                     ctx.add(RULE, f, sig, 'violation', 'arms under mirrored conditions are not mirror images of each other; first difference at %s' % first_diff(ma, bb), PROPS, f.line,
                             {'condition': show(c, 0, 4), 'difference': first_diff(ma, bb)})
-    ctx.stat(RULE, sibling_functions=n_sib, mirror_pairs=n_pairs, mirror_chains=n_chains)
+    # ---- 4. left/right symmetry of the guarded effects of every core function that asks "which side am I on" -------
+    n_sym = 0
+    for t in trees:
+        for (kind, name), f in sorted(cores[t].items()):
+            has, sym, d = G.self_symmetric(G.gef(prog, f))
+            if not has:
+                continue
+            n_sym += 1
+            if sym:
+                ctx.add(RULE, f, 'symmetry', 'ok', 'guarded effects are invariant under exchanging left and right', props_of(prog, f, c09), f.line)
+            else:
+                ctx.add(RULE, f, 'symmetry', 'violation', 'the function distinguishes left from right child, but its effects are not left/right symmetric: %s' % d, props_of(prog, f, c09), f.line, {'difference': d})
+    ctx.stat(RULE, sibling_functions=n_sib, mirror_pairs=n_pairs, mirror_chains=n_chains, symmetric_functions=n_sym)
+    if n_sym < 12:
+        ctx.anchor_missing(RULE, 'core functions with side conditions (left/right symmetry)', PROPS, n_sym, 12)
     if n_sib < 20:
         ctx.anchor_missing(RULE, 'functions of the structural core present in at least two copies', PROPS, n_sib, 20)
     if n_pairs < 7:
         ctx.anchor_missing(RULE, 'mirror-image function pairs', PROPS, n_pairs, 7)
     for t in trees:
-        if n_chains.get(t, 0) < 8:
-            ctx.anchor_missing(RULE, 'mirrored branch chains in %s' % t, PROPS, n_chains.get(t, 0), 8)
+        if n_chains.get(t, 0) < 4:
+            ctx.anchor_missing(RULE, 'mirrored branch chains in %s' % t, PROPS, n_chains.get(t, 0), 4)
